@@ -63,6 +63,11 @@ def run(repo, rep, tier):
     _names(repo, rep)
     _messages(repo, rep)
     _attributes(repo, rep)
+    # the capture variables of i18n:name blocks are named after the mangled
+    # block name: two names of one translation must not share a variable
+    # (C09 owns the rule about the key function)
+    from . import c09
+    L.borrow(repo, rep, "R10.4", "C09", c09._keys, ("slot-key-injective",))
     L.state_rule(repo, rep)
 
 
